@@ -1125,6 +1125,9 @@ Section Commit.
       - right. intros d I. unfold s5, s4, s3, s2. rewrite !ins_content; auto. now apply s1_content.
     Qed.
 
+    Lemma s5_CS_M : CS_M s5.
+    Proof. intros d I. unfold s5, s4, s3, s2. rewrite !ins_content; auto. now apply s1_content. Qed.
+
     (** the validator rejects the four states in between *)
     Lemma read_pinv t cnt : lookup t pinv = Some (File cnt) -> read_file t pinv = Some cnt.
     Proof. apply read_file_lookup. Qed.
@@ -1329,4 +1332,488 @@ Section Commit.
     - destruct Ra as [Ra _]. split; [intros x NI; apply Ra; intros ->; apply NI; now right|].
       intros d _. apply Ra, So_sub_neq_L.
   Qed.
+
+  (** ** the fault-free run as reference *)
+  Definition T1ok (t1 : tree) : Prop :=
+    exists wa w1, acquire c (w0 NoInj) = (ROk tt, wa) /\ prep c wa = (ROk i, w1) /\
+                  w_tree w1 = t1 /\ w_closed w1 = false /\ w_inj w1 = NoInj.
+
+  Definition X : M invr := bind (acquire c) (fun _ => prep c).
+
+  Lemma nice_X : nice X.
+  Proof. unfold X. nice_tac. Qed.
+
+  Lemma FE_X : FE X.
+  Proof. unfold X. fe_tac. Qed.
+
+  Lemma X_split w :
+    X w = match acquire c w with
+          | (ROk _, wa) => prep c wa
+          | (RErr e, wa) => (RErr e, wa)
+          | (RKilled, wa) => (RKilled, wa)
+          end.
+  Proof. reflexivity. Qed.
+
+  Lemma X_of j u wa r w1 : acquire c (w0 j) = (ROk u, wa) -> prep c wa = (r, w1) -> X (w0 j) = (r, w1).
+  Proof. intros EA EP. now rewrite X_split, EA. Qed.
+
+  Lemma disarm_w0 j : disarm (w0 j) = w0 NoInj.
+  Proof. reflexivity. Qed.
+
+  Lemma prefix_unfired j u wa w1 :
+    acquire c (w0 j) = (ROk u, wa) -> prep c wa = (ROk i, w1) -> w_closed w1 = false -> T1ok (w_tree w1).
+  Proof.
+    intros EA EP C. pose proof (X_of j u wa _ w1 EA EP) as EX.
+    destruct (nice_X _ _ _ EX) as (N1 & N2 & N3 & N4 & N5 & N7 & N8 & N6).
+    assert (Unf : w_inj w1 <> NoInj -> T1ok (w_tree w1)).
+    { intros NI. specialize (N6 eq_refl NI). rewrite disarm_w0, X_split in N6.
+      destruct (acquire c (w0 NoInj)) as [[[]|e|] wa'] eqn:EA'; try discriminate.
+      exists wa', (disarm w1). repeat split; auto. }
+    destruct (w_inj w1) eqn:I1; try (apply Unf; discriminate).
+    destruct j as [|n|n|n].
+    - destruct u. exists wa, w1. repeat split; auto.
+    - exfalso. destruct (FE_X _ _ _ EX eq_refl I1) as [e [Y _]]. discriminate.
+    - exfalso. destruct (N3 n eq_refl) as [n' Y]. congruence.
+    - exfalso. destruct (N4 n eq_refl) as [[n' [Y _]] | [_ Y]]; congruence.
+  Qed.
+
+  Lemma closed_needs_stop j u wa r w1 :
+    acquire c (w0 j) = (ROk u, wa) -> prep c wa = (r, w1) -> w_closed w1 = true -> exists n, j = Stop n.
+  Proof.
+    intros EA EP C. pose proof (X_of j u wa _ w1 EA EP) as EX.
+    destruct (nice_X _ _ _ EX) as (_ & _ & _ & _ & _ & N7 & _ & _).
+    destruct j as [|n|n|n]; eauto; exfalso; (destruct N7 as [Y _]; [intros m; discriminate | cbn in Y; congruence]).
+  Qed.
+
+  (** the prefix (acquire, prep) of a run that prepared the staged object: it is the fault-free prefix *)
+  Lemma disarm_noinj w : w_inj w = NoInj -> disarm w = w.
+  Proof. destruct w. cbn. now intros ->. Qed.
+
+  Lemma prefix_world j u wa w1 :
+    acquire c (w0 j) = (ROk u, wa) -> prep c wa = (ROk i, w1) -> w_closed w1 = false ->
+    X (w0 NoInj) = (ROk i, disarm w1) /\
+    (w_inj w1 = NoInj -> j = NoInj).
+  Proof.
+    intros EA EP C. pose proof (X_of j u wa _ w1 EA EP) as EX.
+    destruct (nice_X _ _ _ EX) as (N1 & N2 & N3 & N4 & N5 & N7 & N8 & N6).
+    assert (Unf : w_inj w1 <> NoInj -> X (w0 NoInj) = (ROk i, disarm w1)).
+    { intros NI. specialize (N6 eq_refl NI). now rewrite disarm_w0 in N6. }
+    destruct (w_inj w1) eqn:I1; try (split; [apply Unf; discriminate | discriminate]).
+    destruct j as [|n|n|n].
+    - split; [|reflexivity]. rewrite (disarm_noinj w1 I1). exact EX.
+    - exfalso. destruct (FE_X _ _ _ EX eq_refl I1) as [e [Y _]]. discriminate.
+    - exfalso. destruct (N3 n eq_refl) as [n' Y]. congruence.
+    - exfalso. destruct (N4 n eq_refl) as [[n' [Y _]] | [_ Y]]; congruence.
+  Qed.
+
+  Lemma commit_unfold_X j :
+    commit c (w0 j) =
+    match X (w0 j) with
+    | (ROk i', w1) => finally (mid c i') (unlock c) w1
+    | (RErr e, w1) =>
+        match acquire c (w0 j) with
+        | (ROk _, _) => (attempt (unlock c) ;; throw e) w1
+        | _ => (RErr e, w1)
+        end
+    | (RKilled, w1) => (RKilled, w1)
+    end.
+  Proof.
+    rewrite commit_unfold, X_split. destruct (acquire c (w0 j)) as [[u|e|] wa]; try reflexivity.
+  Qed.
+
+  (** ** the run when the object does not exist yet (first version) *)
+  Section RunNO.
+    Hypothesis VS1 : i_vs i0 = [h].
+    Hypothesis Absent : forall x, under Mo x = true -> lookup t0 x = None.
+
+    Lemma install_no : install c i = write_new_object c.
+    Proof. unfold install, inv_is_new. change (i_vs i) with (i_vs i0). now rewrite VS1. Qed.
+
+    Definition tnewo : tree := w_tree (snd (commit c (w0 NoInj))).
+
+    Lemma NObjPost_same t1 a b : NObjPost t1 a -> NObjPost t1 b -> same_at Mo a b.
+    Proof.
+      intros [A _] [B _] x U. apply under_iff in U as [s ->]. now rewrite A, B.
+    Qed.
+
+    Lemma stable_NI_L : ~ (under Mo L = true \/ under So L = true).
+    Proof.
+      intros [Y | Y]; [rewrite L_not_under_Mo in Y | rewrite L_not_under_So in Y]; discriminate.
+    Qed.
+
+    Lemma unlock_preserves_NI t1 : preserves (NI t1) (unlock c).
+    Proof.
+      unfold unlock. fold (lockp c). fold L. apply (pres_remove_file_inf _ _ (stable_NI t1)). apply stable_NI_L.
+    Qed.
+
+    (** a kill or a fault: the main object stays absent, or the staged object was moved in as in the
+        fault-free run *)
+    Lemma run_no j :
+      (forall n, j <> Stop n) ->
+      let res := commit c (w0 j) in
+      let t' := w_tree (snd res) in
+      (Base t' /\ is_ok (fst res) = false) \/
+      (exists t1, JP l6 t1 /\ NI t1 t' /\ is_ok (fst res) = false) \/
+      (exists t2, same_at Mo t' t2 /\ same_at Mo tnewo t2 /\ CS_M t2 /\ lookup t2 (Mo ++ [h]) = Some Dir).
+    Proof.
+      intros NS. cbv zeta. rewrite commit_unfold. pose proof (phase_acquire_prep j) as PH.
+      destruct (acquire c (w0 j)) as [[u|e|] wa] eqn:EA.
+      2: { left. split; [exact PH | reflexivity]. }
+      2: { left. split; [exact PH | reflexivity]. }
+      destruct PH as [Wa PH]. destruct (prep c wa) as [[i'|e|] w1] eqn:EP.
+      2: { left. split.
+           - apply (attempt_then_tree Base). { apply unlock_preserves_Base. } { apply pres_throw. } exact PH.
+           - destruct (attempt_throw_res (unlock c) e w1) as [Y|Y]; rewrite Y; reflexivity. }
+      2: { left. split; [exact PH | reflexivity]. }
+      destruct PH as (-> & J1 & W1). rewrite mid_unfold. destruct (w_closed w1) eqn:C.
+      { exfalso. destruct (closed_needs_stop j u wa _ w1 EA EP C) as [n Y]. now apply NS in Y. }
+      destruct (prefix_world j u wa w1 EA EP C) as [PX PJ].
+      rewrite install_no.
+      pose proof (H_write_new_object (w_tree w1) J1 w1 W1 (NI_t1 (w_tree w1) J1 Absent)) as HI.
+      destruct (write_new_object c w1) as [[u2|e|] w2] eqn:EI; cbn [fst snd] in HI; destruct HI as (W2 & _ & R2).
+      - right. right. exists (w_tree w2). split; [|split; [|split]].
+        + apply (tail_preserves Mo (w_tree w2) (under_refl _) w2). intros x _. reflexivity.
+        + (* the fault-free run goes through the same installation *)
+          unfold tnewo. rewrite commit_unfold_X, PX, mid_unfold. cbn [disarm w_closed]. rewrite C, install_no.
+          destruct (nice_write_new_object c _ _ _ EI) as (N1 & N2 & N3 & N4 & N5 & N7 & N8 & N6).
+          destruct (w_inj w2) eqn:I2.
+          * (* the event has happened or there was none *)
+            destruct (w_inj w1) eqn:I1.
+            -- rewrite (disarm_noinj w1 I1), EI. apply (tail_preserves Mo (w_tree w2) (under_refl _) w2). intros x _. reflexivity.
+            -- exfalso. destruct (FE_write_new_object c _ _ _ EI) as [e [Y _]]; [now rewrite I1 | exact I2 | discriminate].
+            -- exfalso. destruct (N3 n eq_refl) as [n' Y]. congruence.
+            -- exfalso. specialize (PJ eq_refl) || idtac. clear PJ.
+               destruct (prefix_world j u wa w1 EA EP C) as [_ _].
+               (* a stop request is pending at w1: excluded *)
+               pose proof (X_of j u wa _ w1 EA EP) as EX.
+               destruct (nice_X _ _ _ EX) as (_ & _ & _ & _ & _ & M7 & _ & _).
+               destruct (M7 NS) as [_ NS1]. now apply (NS1 n).
+          * rewrite (N6 eq_refl) by discriminate. apply (tail_preserves Mo (w_tree w2) (under_refl _) (disarm w2)). intros x _. reflexivity.
+          * rewrite (N6 eq_refl) by discriminate. apply (tail_preserves Mo (w_tree w2) (under_refl _) (disarm w2)). intros x _. reflexivity.
+          * rewrite (N6 eq_refl) by discriminate. apply (tail_preserves Mo (w_tree w2) (under_refl _) (disarm w2)). intros x _. reflexivity.
+        + exact (NObjPost_CS_M (w_tree w1) J1 _ R2).
+        + destruct R2 as [R2 _]. rewrite R2. apply (Pts_l6 _ _ _ J1). cbn. auto 10.
+      - right. left. exists (w_tree w1). split; [exact J1 | split].
+        + apply (attempt_then_tree (NI (w_tree w1))). { apply unlock_preserves_NI. } { apply pres_throw. } exact (proj1 R2).
+        + destruct (attempt_throw_res (unlock c) e w2) as [Y|Y]; rewrite Y; reflexivity.
+      - right. left. exists (w_tree w1). split; [exact J1 | split; [exact (proj1 R2) | reflexivity]].
+    Qed.
+
+    Lemma no_facts j :
+      (forall n, j <> Stop n) ->
+      let res := commit c (w0 j) in
+      let t' := w_tree (snd res) in
+      (CS_S t' \/ CS_M t') /\
+      (OLD t' \/ same_at Mo t' tnewo) /\
+      (is_ok (fst res) = true -> same_at Mo t' tnewo) /\
+      (lookup t' (Mo ++ [h]) = None -> OLD t' /\ CS_S t').
+    Proof.
+      intros NS. pose proof (run_no j NS) as R. cbv zeta in *.
+      destruct R as [[B NOk] | [(t1 & J1 & N & NOk) | (t2 & S1 & S2 & CM & HP)]].
+      - split; [left; now apply Base_CS_S | split; [left; now apply Base_OLD | split]].
+        + intros O. congruence.
+        + intros _. split; [now apply Base_OLD | now apply Base_CS_S].
+      - pose proof (NI_OLD t1 Absent _ N) as O. pose proof (NI_CS_S t1 J1 _ N) as CS.
+        split; [left; exact CS | split; [left; exact O | split]].
+        + intros Y. congruence.
+        + intros _. split; assumption.
+      - assert (NW : same_at Mo (w_tree (snd (commit c (w0 j)))) tnewo).
+        { intros x U. rewrite (S1 x U). symmetry. now apply S2. }
+        split; [right; intros d I; rewrite (S1 _ (under_app Mo d)); now apply CM | split; [right; exact NW | split]].
+        + intros _. exact NW.
+        + intros Y. rewrite (S1 _ (under_app Mo [h])), HP in Y. discriminate.
+    Qed.
+  End RunNO.
+
+  (** ** the run when the object exists (a further version, the inventory type unchanged) *)
+  Section RunNV.
+    Variables (k0 : N) (vs0 : list fseg) (spec0 : fseg) (man0 dups0 : list fpath) (osd : content).
+    Hypothesis V0 : vs0 <> [].
+    Hypothesis VS : i_vs i0 = vs0 ++ [h].
+    Hypothesis Hnotin : ~ In h vs0.
+    Hypothesis MoD : lookup t0 Mo = Some Dir.
+    Hypothesis MInv : lookup t0 (Mo ++ [c_inv c]) = Some (File (CInv k0 vs0 spec0 man0 dups0)).
+    Hypothesis MSide : lookup t0 (Mo ++ [c_side c]) = Some (File osd).
+    Hypothesis Valid0 : obj_validb c t0 Mo = true.
+    Hypothesis Knew : k0 <> c_newk c.
+    Hypothesis Free : forall x, under (Mo ++ [h]) x = true -> lookup t0 x = None.
+    Hypothesis SameSpec : i_spec i0 = spec0.
+
+    Lemma install_nv : install c i = write_new_version c i.
+    Proof. unfold install. erewrite inv_is_new_false; eauto. Qed.
+
+    Definition HWNV t1 (J1 : JP l6 t1) :=
+      H_write_new_version t1 J1 k0 vs0 spec0 man0 dups0 osd V0 VS MoD MInv MSide Free SameSpec.
+
+    (** what the run leaves, whatever event is injected *)
+    Definition LeafA (j : inj) (r : out unit) (t' : tree) : Prop :=
+      Base t' /\ (is_ok r = true -> exists n, j = Stop n).
+    Definition LeafB (r : out unit) (t' : tree) : Prop :=
+      exists t1, JP l6 t1 /\ T1ok t1 /\ KV t1 t' /\ r = RKilled.
+    Definition LeafC (r : out unit) (t' : tree) : Prop :=
+      exists t1, JP l6 t1 /\ (forall x, x <> L -> lookup t' x = lookup t1 x) /\ is_ok r = false.
+    Definition LeafD (t' : tree) : Prop :=
+      exists t1, JP l6 t1 /\ T1ok t1 /\ same_at Mo t' (s5 t1).
+
+    Lemma run_nv j :
+      let res := commit c (w0 j) in
+      LeafA j (fst res) (w_tree (snd res)) \/ LeafB (fst res) (w_tree (snd res)) \/
+      LeafC (fst res) (w_tree (snd res)) \/ LeafD (w_tree (snd res)).
+    Proof.
+      cbv zeta. rewrite commit_unfold. pose proof (phase_acquire_prep j) as PH.
+      destruct (acquire c (w0 j)) as [[u|e|] wa] eqn:EA.
+      2: { left. split; [exact PH | discriminate]. }
+      2: { left. split; [exact PH | discriminate]. }
+      destruct PH as [Wa PH]. destruct (prep c wa) as [[i'|e|] w1] eqn:EP.
+      2: { left. split.
+           - apply (attempt_then_tree Base). { apply unlock_preserves_Base. } { apply pres_throw. } exact PH.
+           - destruct (attempt_throw_res (unlock c) e w1) as [Y|Y]; rewrite Y; discriminate. }
+      2: { left. split; [exact PH | discriminate]. }
+      destruct PH as (-> & J1 & W1). rewrite mid_unfold. destruct (w_closed w1) eqn:C.
+      { left. split.
+        - apply (attempt_then_tree Base). { apply unlock_preserves_Base. } { apply pres_ret. } exact (JP_Base _ _ J1).
+        - intros _. exact (closed_needs_stop j u wa _ w1 EA EP C). }
+      pose proof (prefix_unfired j u wa w1 EA EP C) as T1.
+      rewrite install_nv. pose proof (HWNV (w_tree w1) J1 w1 W1 eq_refl) as HI.
+      destruct (write_new_version c i w1) as [[u2|e|] w2] eqn:EI; cbn [fst snd] in HI; destruct HI as (W2 & _ & R2).
+      - right. right. right. exists (w_tree w1). split; [exact J1 | split; [exact T1 |]].
+        apply (tail_preserves Mo (s5 (w_tree w1)) (under_refl _) w2). rewrite R2. intros x _. reflexivity.
+      - right. right. left. exists (w_tree w1). destruct R2 as [[_ R2] _]. split; [exact J1 | split].
+        + apply (attempt_then_tree (fun t => forall x, x <> L -> lookup t x = lookup (w_tree w1) x)).
+          { apply unlock_preserves_except_L. } { apply pres_throw. } intros x _; apply R2.
+        + destruct (attempt_throw_res (unlock c) e w2) as [Y|Y]; rewrite Y; reflexivity.
+      - right. left. exists (w_tree w1). destruct R2 as [R2 _]. split; [exact J1 | split; [exact T1 | split; [exact R2 | reflexivity]]].
+    Qed.
+  
+    Definition tnew : tree := w_tree (snd (commit c (w0 NoInj))).
+    Definition NEW (t : tree) : Prop := same_at Mo t tnew.
+
+    Lemma ff_new_nv t1 : JP l6 t1 -> T1ok t1 -> same_at Mo tnew (s5 t1).
+    Proof.
+      intros J1 (wa & w1 & EA & EP & <- & C & I1). unfold tnew.
+      rewrite commit_unfold, EA, EP, mid_unfold, C, install_nv.
+      assert (W1 : wfw w1) by (intros Y; congruence).
+      pose proof (HWNV (w_tree w1) J1 w1 W1 eq_refl) as HI.
+      destruct (write_new_version c i w1) as [[u2|e|] w2]; cbn [fst snd] in HI; destruct HI as (W2 & M2 & R2).
+      - apply (tail_preserves Mo (s5 (w_tree w1)) (under_refl _) w2). rewrite R2. intros x _. reflexivity.
+      - exfalso. destruct R2 as [[O _] R3]. destruct (R3 O) as [_ NQ]. apply NQ. split; assumption.
+      - exfalso. destruct R2 as [_ NK]. contradiction.
+    Qed.
+
+    Lemma same_at_sym q a b : same_at q a b -> same_at q b a.
+    Proof. intros S x U. symmetry. now apply S. Qed.
+    Lemma same_at_trans q a b d : same_at q a b -> same_at q b d -> same_at q a d.
+    Proof. intros S1 S2 x U. rewrite (S1 x U). now apply S2. Qed.
+    Lemma same_at_sub q q' a b : under q q' = true -> same_at q a b -> same_at q' a b.
+    Proof. intros U S x Ux. apply S. eapply under_trans; eauto. Qed.
+
+    Lemma LeafD_NEW t' : LeafD t' -> NEW t'.
+    Proof.
+      intros (t1 & J1 & T1 & S). eapply same_at_trans; [exact S | apply same_at_sym, ff_new_nv; auto].
+    Qed.
+
+    Definition KVI t1 (J1 : JP l6 t1) :=
+      KV_versions_intact t1 J1 k0 vs0 spec0 man0 dups0 osd MInv MSide Free SameSpec Valid0 Hnotin Knew.
+
+    Lemma Base_VI t : Base t -> versions_intact c vs0 t0 t.
+    Proof. intros B v I x U. apply (Base_main t x B). eapply under_trans; [apply under_app | exact U]. Qed.
+
+    Lemma exceptL_Base t t1 : JP l6 t1 -> (forall x, x <> L -> lookup t x = lookup t1 x) -> Base t.
+    Proof.
+      intros [[B1 B2] _] E. split.
+      - intros x NI. rewrite E; [now apply B1|]. intros ->. apply NI. now right.
+      - intros d I. rewrite E; [now apply B2 | apply So_sub_neq_L].
+    Qed.
+
+    (** every outcome: old versions intact, content somewhere, and the class of the main object *)
+    Lemma leaves_safe j r t' :
+      LeafA j r t' \/ LeafB r t' \/ LeafC r t' \/ LeafD t' ->
+      versions_intact c vs0 t0 t' /\ (CS_S t' \/ CS_M t') /\
+      (OLD t' \/ NEW t' \/ (obj_validb c t' Mo = false /\ r = RKilled)).
+    Proof.
+      intros [[B _] | [(t1 & J1 & T1 & K & ->) | [(t1 & J1 & E & _) | D]]].
+      - split; [now apply Base_VI | split; [left; now apply Base_CS_S | left; now apply Base_OLD]].
+      - split; [exact (KVI t1 J1 t' K) | split; [exact (KV_content t1 J1 Free t' K)|]].
+        unfold KV in K. cbn in K. destruct K as [<- | [<- | [<- | [<- | [<- | [<- | []]]]]]].
+        + left. exact (t1_OLD t1 J1).
+        + right. right. split; [|reflexivity]. exact (s1_invalid t1 J1 k0 vs0 spec0 man0 dups0 MInv Free SameSpec Hnotin).
+        + right. right. split; [|reflexivity]. apply s2_invalid.
+        + right. right. split; [|reflexivity]. exact (s3_invalid t1 J1 k0 vs0 spec0 man0 dups0 osd MInv MSide Free SameSpec Valid0 Knew).
+        + right. right. split; [|reflexivity]. apply s4_invalid.
+        + right. left. apply same_at_sym, ff_new_nv; auto.
+      - pose proof (exceptL_Base t' t1 J1 E) as B.
+        split; [now apply Base_VI | split; [left; now apply Base_CS_S | left; now apply Base_OLD]].
+      - pose proof D as (t1 & J1 & T1 & S). split; [|split].
+        + intros v I x U. rewrite (same_at_sub Mo (Mo ++ [v]) _ _ (under_app _ _) S x U).
+          assert (K5 : KV t1 (s5 t1)) by (unfold KV; cbn; auto 10).
+          exact (KVI t1 J1 (s5 t1) K5 v I x U).
+        + right. intros d I. rewrite (S _ (under_app Mo d)). now apply (s5_CS_M t1 J1 Free).
+        + right. left. now apply LeafD_NEW.
+    Qed.
+  
+    Lemma not_killed_unless_kill j : (forall n, j <> Kill n) -> is_killed (fst (commit c (w0 j))) = false.
+    Proof.
+      intros NK. destruct (commit c (w0 j)) as [r w'] eqn:E.
+      destruct (nice_commit c _ _ _ E) as (_ & _ & _ & _ & _ & _ & N8 & _). cbn [fst].
+      destruct (is_killed r) eqn:K; [|reflexivity]. destruct (N8 eq_refl) as [n Y]. cbn in Y. now apply NK in Y.
+    Qed.
+
+    Lemma CS_somewhere t' : CS_S t' \/ CS_M t' -> content_somewhere c i0 t0 t'.
+    Proof. intros [S | S] d I; [left | right]; now apply S. Qed.
+
+    Theorem nv_kill_safe k :
+      let t' := w_tree (snd (commit c (w0 (Kill k)))) in
+      versions_intact c vs0 t0 t' /\ content_somewhere c i0 t0 t' /\
+      (same_at Mo t' t0 \/ same_at Mo t' tnew \/ obj_validb c t' Mo = false).
+    Proof.
+      cbv zeta. destruct (leaves_safe (Kill k) _ _ (run_nv (Kill k))) as (V & S & [O | [N | [I _]]]);
+        (split; [exact V | split; [now apply CS_somewhere | auto]]).
+    Qed.
+
+    Lemma head_present_D t' : LeafD t' -> lookup t' (Mo ++ [h]) = Some Dir.
+    Proof.
+      intros (t1 & J1 & _ & S). rewrite (S _ (under_app Mo [h])). exact (s5_head_present t1 J1 Free).
+    Qed.
+
+    (** any event other than a kill *)
+    Lemma nv_atomic j :
+      (forall n, j <> Kill n) ->
+      let res := commit c (w0 j) in
+      let t' := w_tree (snd res) in
+      (OLD t' \/ NEW t') /\
+      ((forall n, j <> Stop n) -> is_ok (fst res) = true -> NEW t') /\
+      (lookup t' (Mo ++ [h]) = None -> OLD t' /\ CS_S t') /\
+      is_killed (fst res) = false.
+    Proof.
+      intros NK. cbv zeta. pose proof (not_killed_unless_kill j NK) as NKr.
+      pose proof (run_nv j) as R. cbv zeta in R.
+      destruct R as [[B Ok] | [(t1 & _ & _ & _ & Kd) | [(t1 & J1 & E & NOk) | D]]].
+      - split; [|split; [|split]]; auto.
+        + left. now apply Base_OLD.
+        + intros NS O. destruct (Ok O) as [n Y]. now apply NS in Y.
+        + intros _. split; [now apply Base_OLD | now apply Base_CS_S].
+      - rewrite Kd in NKr. discriminate.
+      - pose proof (exceptL_Base _ t1 J1 E) as B. split; [|split; [|split]]; auto.
+        + left. now apply Base_OLD.
+        + intros _ O. congruence.
+        + intros _. split; [now apply Base_OLD | now apply Base_CS_S].
+      - split; [|split; [|split]]; auto.
+        + right. now apply LeafD_NEW.
+        + intros _ _. now apply LeafD_NEW.
+        + intros Y. rewrite (head_present_D _ D) in Y. discriminate.
+    Qed.
+  End RunNV.
 End Commit.
+
+(** * the closed statements *)
+Lemma read_file_inv t p cnt : read_file t p = Some cnt -> p <> [] -> lookup t p = Some (File cnt).
+Proof.
+  unfold read_file. intros R N. rewrite (node_at_lookup _ _ N) in R.
+  destruct (lookup t p) as [[|c0]|]; try discriminate. now injection R as ->.
+Qed.
+
+Lemma validb_side c t root k vs sp man dups :
+  read_file t (root ++ [c_inv c]) = Some (CInv k vs sp man dups) -> obj_validb c t root = true ->
+  exists osd, lookup t (root ++ [c_side c]) = Some (File osd).
+Proof.
+  intros R V. unfold obj_validb in V. rewrite R in V. repeat (apply andb_true_iff in V as [V ?]).
+  destruct (read_file t (root ++ [c_side c])) as [osd|] eqn:S; [|discriminate].
+  exists osd. apply (read_file_inv _ _ _ S). apply snoc_ne.
+Qed.
+
+Section Closed.
+  Variables (c : cfg) (t0 : tree) (i0 : invr).
+  Hypothesis Pre : commit_pre c t0 i0.
+  Hypothesis ST : same_type c t0 i0.
+
+  Lemma present_data :
+    i_vs i0 <> [head_of i0] ->
+    exists k0 vs0 spec0 man0 dups0 osd,
+      vs0 <> [] /\ i_vs i0 = vs0 ++ [head_of i0] /\ ~ In (head_of i0) vs0 /\ lookup t0 (c_mo c) = Some Dir /\
+      lookup t0 (c_mo c ++ [c_inv c]) = Some (File (CInv k0 vs0 spec0 man0 dups0)) /\
+      lookup t0 (c_mo c ++ [c_side c]) = Some (File osd) /\ obj_validb c t0 (c_mo c) = true /\ k0 <> c_newk c /\
+      (forall x, under (c_mo c ++ [head_of i0]) x = true -> lookup t0 x = None) /\ i_spec i0 = spec0 /\
+      earlier_versions i0 = vs0.
+  Proof.
+    intros NV.
+    destruct (pre_main c t0 i0 Pre) as [E _ | k0 vs0 spec0 man0 dups0 V0 VS Hn MoD MInv Val Kn Free _]; [contradiction|].
+    destruct (validb_side c t0 _ _ _ _ _ _ MInv Val) as [osd MS].
+    exists k0, vs0, spec0, man0, dups0, osd. repeat split; auto.
+    - apply (read_file_inv _ _ _ MInv). apply snoc_ne.
+    - exact (ST _ _ _ _ _ MInv).
+    - unfold earlier_versions. rewrite VS. apply removelast_last.
+  Qed.
+
+  Lemma absent_data :
+    i_vs i0 = [head_of i0] -> forall x, under (c_mo c) x = true -> lookup t0 x = None.
+  Proof.
+    intros E. destruct (pre_main c t0 i0 Pre) as [_ A | k0 vs0 spec0 man0 dups0 V0 VS]; [exact A|].
+    exfalso. rewrite VS in E. destruct vs0 as [|a [|z l]]; [contradiction | discriminate | discriminate].
+  Qed.
+
+  Lemma first_or_not : {i_vs i0 = [head_of i0]} + {i_vs i0 <> [head_of i0]}.
+  Proof.
+    destruct (i_vs i0) as [|a [|z l]] eqn:V.
+    - right. discriminate.
+    - left. unfold head_of. rewrite V. reflexivity.
+    - right. discriminate.
+  Qed.
+
+  (** C05: a kill at any position *)
+  Theorem commit_kill_safe k :
+    let t' := run_tree (commit c) t0 (Kill k) in
+    let tnew := run_tree (commit c) t0 NoInj in
+    versions_intact c (earlier_versions i0) t0 t' /\ content_somewhere c i0 t0 t' /\
+    (same_at (c_mo c) t' t0 \/ same_at (c_mo c) t' tnew \/ obj_validb c t' (c_mo c) = false).
+  Proof.
+    destruct first_or_not as [F | NV].
+    - pose proof (no_facts c t0 i0 Pre F (absent_data F) (Kill k)) as R. cbv zeta in *.
+      destruct R as (CS & ON & _ & _); [intros n; discriminate|].
+      split; [|split].
+      + unfold earlier_versions. rewrite F. cbn. intros v [].
+      + destruct CS as [S | S]; intros d I; [left | right]; now apply S.
+      + destruct ON as [O | N]; auto.
+    - destruct (present_data NV) as (k0 & vs0 & spec0 & man0 & dups0 & osd & V0 & VS & Hn & MoD & MInv & MS & Val & Kn & Free & SS & EV).
+      rewrite EV.
+      exact (nv_kill_safe c t0 i0 Pre k0 vs0 spec0 man0 dups0 osd V0 VS Hn MoD MInv MS Val Kn Free SS k).
+  Qed.
+
+  (** C04: a fault at any position (or none) *)
+  Theorem commit_fault_atomic j :
+    (forall n, j <> Kill n) -> (forall n, j <> Stop n) ->
+    let res := run (commit c) t0 j in
+    let t' := w_tree (snd res) in
+    let tnew := run_tree (commit c) t0 NoInj in
+    (same_at (c_mo c) t' t0 \/ same_at (c_mo c) t' tnew) /\
+    (is_ok (fst res) = true -> same_at (c_mo c) t' tnew) /\
+    (lookup t' (c_mo c ++ [head_of i0]) = None ->
+       same_at (c_mo c) t' t0 /\
+       forall d, In d (i_man (committed_inv c i0)) -> lookup t' (c_so c ++ d) = lookup t0 (c_so c ++ d)).
+  Proof.
+    intros NK NS. destruct first_or_not as [F | NV].
+    - pose proof (no_facts c t0 i0 Pre F (absent_data F) j NS) as R. cbv zeta in *.
+      destruct R as (_ & ON & OkN & HP). split; [exact ON | split; [exact OkN | exact HP]].
+    - destruct (present_data NV) as (k0 & vs0 & spec0 & man0 & dups0 & osd & V0 & VS & Hn & MoD & MInv & MS & Val & Kn & Free & SS & EV).
+      pose proof (nv_atomic c t0 i0 Pre k0 vs0 spec0 man0 dups0 osd V0 VS MoD MInv MS Free SS j NK) as R.
+      cbv zeta in *. destruct R as (A & B & C & _). split; [exact A | split; [intros O; exact (B NS O) | exact C]].
+  Qed.
+
+  (** C04: a stop request at any position, for an object that exists *)
+  Theorem commit_stop_atomic k :
+    i_vs i0 <> [head_of i0] ->
+    let res := run (commit c) t0 (Stop k) in
+    let t' := w_tree (snd res) in
+    let tnew := run_tree (commit c) t0 NoInj in
+    (same_at (c_mo c) t' t0 \/ same_at (c_mo c) t' tnew) /\
+    is_killed (fst res) = false /\
+    (lookup t' (c_mo c ++ [head_of i0]) = None ->
+       same_at (c_mo c) t' t0 /\
+       forall d, In d (i_man (committed_inv c i0)) -> lookup t' (c_so c ++ d) = lookup t0 (c_so c ++ d)).
+  Proof.
+    intros NV.
+    destruct (present_data NV) as (k0 & vs0 & spec0 & man0 & dups0 & osd & V0 & VS & Hn & MoD & MInv & MS & Val & Kn & Free & SS & EV).
+    assert (NK : forall n, Stop k <> Kill n) by (intros n; discriminate).
+    pose proof (nv_atomic c t0 i0 Pre k0 vs0 spec0 man0 dups0 osd V0 VS MoD MInv MS Free SS (Stop k) NK) as R.
+    cbv zeta in *. destruct R as (A & B & C & D). split; [exact A | split; [exact D | exact C]].
+  Qed.
+End Closed.
